@@ -164,6 +164,9 @@ impl Check for C11 {
     fn isolate(&self) -> bool {
         true
     }
+    fn level(&self) -> &'static str {
+        "fault_enumeration"
+    }
     fn rule(&self) -> String {
         "histories over (a) the raw item vector (initial capacity 0..100, 1-3 columns) and (b) a whole Nucleo (1-3 worker threads): push / extend with honest and lying ExactSizeIterators (reporting up to 6000 more - enough to skip whole buckets - or fewer than yielded), fill callbacks that panic at a generated position (fault injection, caught around the call), get, tick, reparse, restart(true|false), injector()/clone/drop (also on other threads), final drop of everything on this or another thread. Payloads register every drop in a ledger; column texts are heap blocks in a size band watched by a counting global allocator. Oracle: nothing is dropped twice; nothing readable through a live handle has been dropped or has a damaged canary; a panicking fill leaves its item dropped exactly once; after all handles and the matcher are gone every item handed to push / yielded to extend has exactly one drop and (histories without injected panics) no column block is left alive. Non-trivial: history with a lying iterator, an injected panic or a restart, and items beyond the initial capacity's bucket.".into()
     }
